@@ -274,6 +274,8 @@ def run_A(case, hh):
     lay = D.build(desc)
     fh = hh.keep(call("form", [lay._h], [0]).h)
     tags = ["part:A"] + sorted(GF.type_classes(T)) + sorted("layout:" + c for c in gen.features(desc) if c[0].isupper())
+    if case.get("typestrs"):
+        tags.append("A:custom_typestrs")
     # ---- the type obtained from the form equals the type obtained from the array
     ta = hh.keep(call("type_ts", [lay._h], ss=ss).h)
     tf = hh.keep(call("form_type_ts", [fh], ss=ss).h)
